@@ -41,6 +41,10 @@ CHECKS = {
          "Generated-input search over 260k (20M) products with condition number <= 1e3 and |det| in [1e-3,1e3]; all identities compared with an f64 reference under componentwise error bounds with >= 9x measured margin.",
          "Trusted: f64 reference (Leibniz determinant, Jacobi condition number); D-f domain; apply uses the documented homogeneous-1 form.",
          "DESIGN.md §4 C09"),
+ "C10": ("program generation: a fixed enumeration of (ill-typed program, well-typed twin) pairs per misuse class x API entry point plus grammar-generated expression trees hit by one mutation, classified by a type-checker model of the tag discipline; rustc is the system under test (cargo build for twins, cargo check --message-format=json for misuse, per-function error attribution)",
+         "Generated-input search over programs: 100 enumerated pairs + 300 (5000) random programs per run; every ill-typed program must draw an error inside its own function (re-compiled alone before being reported), every well-typed one must build.",
+         "Trusted: the model type_of() in c10.rs (validated against the unchanged crate: it agrees with rustc on every generated program) and rustc's diagnostics spans.",
+         "DESIGN.md §4 C10"),
  "C11": ("model-based stateful testing: exhaustive over all roots <= 4x4 x all sub-rectangles x two nesting levels x a battery of scripts, proptest operation histories (vec(op,0..40) + interpreter), exhaustive direct Slice2/MutSlice2 construction; model = Vec<Vec<u32>> + windows",
          "Generated-input search: 360k (4.6M) exhaustive view/script cases, 30k (1M) histories, 49k (417k) direct constructions; after every write root.data() is compared with the model storage exactly; every out-of-bounds access must panic or return None.",
          "Trusted: the array model in c11.rs; D-h (a panic when constructing a zero-area view is a clean rejection).",
